@@ -291,7 +291,8 @@ func evaluate(srv *pvpeg.Server, pigeon, dir string, seed int64, i int, av pvpeg
 	if r.Intn(5) == 0 {
 		add("-receiver-name", []string{"c", "p", "cur", "self", "ç"}[r.Intn(5)])
 	}
-	if r.Intn(3) == 0 {
+	if r.Intn(3) == 0 || (has["-optimize-grammar"] && r.Intn(2) == 0) {
+		// (with -optimize-grammar the list decides which rules survive: more of these)
 		var names []string
 		allValid := r.Intn(10) < 7
 		for k := 1 + r.Intn(3); k > 0; k-- {
@@ -301,7 +302,7 @@ func evaluate(srv *pvpeg.Server, pigeon, dir string, seed int64, i int, av pvpeg
 				names = append(names, []string{"Nope", "", "A", "x y"}[r.Intn(4)])
 			}
 		}
-		if allValid && r.Intn(3) == 0 {
+		if allValid && r.Intn(2) == 0 {
 			// stray commas: empty names are skipped by main.go, the names after them still count
 			for k := 1 + r.Intn(2); k > 0; k-- {
 				at := r.Intn(len(names) + 1)
